@@ -151,7 +151,7 @@ def _(c):
     kind = c.integer("kind")
     base = _state("cartesian", cov=kind in (1, 3, 4), mans=kind in (2, 3, 4), orbit=kind == 4)
     pool = [base]
-    ok_alias = ok_recv = ok_value = ok_fail = ok_meta = True
+    ok_alias = ok_recv = ok_value = ok_fail = ok_meta = ok_inplace = True
     forms = ["spherical", "keplerian", "keplerian_mean", "equinoctial", "cartesian", "cylindrical"]
     frames_ = ["ITRF", "TOD", "GCRF", "EME2000", "TEME"]
     for i in range(6):
@@ -191,10 +191,15 @@ def _(c):
                 tgt.cov = Cov(tgt, A @ A.T, tgt.frame)
             elif op == "form_setter":
                 mutates = True
+                want = np.asarray(tgt.copy(form=forms[a % len(forms)]), dtype=float)
                 tgt.form = forms[a % len(forms)]
+                # changing in place gives what a converted copy gives (the write really reaches the object's own memory)
+                ok_inplace = ok_inplace and tgt.form.name == forms[a % len(forms)] and bool(np.allclose(np.asarray(tgt, dtype=float), want, rtol=1e-12, atol=1e-9)) and _consistent(tgt)
             elif op == "frame_setter":
                 mutates = True
+                want = np.asarray(tgt.copy(frame=frames_[a % len(frames_)]), dtype=float)
                 tgt.frame = frames_[a % len(frames_)]
+                ok_inplace = ok_inplace and tgt.frame.name == frames_[a % len(frames_)] and bool(np.allclose(np.asarray(tgt, dtype=float), want, rtol=1e-12, atol=1e-9)) and _consistent(tgt)
             elif op == "bad_form":
                 try:
                     tgt.form = "no_such_form"
@@ -243,6 +248,7 @@ def _(c):
     c.ensure("receiver_unchanged_by_returning_methods", ok_recv)
     c.ensure("returned_object_has_requested_form_frame", ok_value)
     c.ensure("failed_change_is_atomic", ok_fail)
+    c.ensure("in_place_change_equals_converted_copy", ok_inplace)
     c.ensure("pickle_and_type_conversion_preserve", ok_meta)
 
 
